@@ -440,6 +440,65 @@ class SetExitReason(Target):
                  Eq(st.this._resubmissionAttempts, If(Eq(final, ER['Success']), 0, st.resub)))]
 
 
+class LaunchTask(Target):
+    """The closure Engine.run.LaunchTask, where a submission fails.  The resubmission cap counts consecutive exits whose
+    recorded reason is SubmissionFailed; _setExitReason (above) prefers the reason of `self.process` when there is one.
+    So a failed launch must leave NO task on the engine -- not the finished task of the previous round -- and the reason that
+    the real _setExitReason then records for the emission must be the launch failure's own reason."""
+    prop = 'C12'
+    name = 'Engine.run.LaunchTask'
+    file = 'python/experiment/runtime/engine.py'
+    qualname = 'Engine.run.LaunchTask'
+    inline_class = {'this': ('python/experiment/runtime/engine.py', 'Engine')}
+    compare_return = False
+    trusted = ["taskGenerator returns a task or raises"]
+    assumptions = ["engine entered with no task or with the finished task of the previous round (any exit reason); the launch "
+                   "succeeds, or raises OSError / JobLaunchError / another exception"]
+
+    def setup(self, c):
+        prev_reason = c.one_of('task_of_the_previous_round', [None, 'ResourceExhausted', 'KnownIssue', 'Success'])
+        previous = None if prev_reason is None else Obj('previous-task', exitReason=ER[prev_reason], returncode=1,
+                                                      isAlive=Extern('Task.isAlive', lambda c: False))
+        launch = c.one_of('launch', ['ok', 'OSError', 'JobLaunchError', 'other'])
+        new_task = Obj('new-task', exitReason=None, isAlive=Extern('Task.isAlive', lambda c: True))
+
+        def generate(c, job, *a, **k):
+            if launch == 'OSError':
+                c.raise_(OSError, 5, 'stale file handle')
+            if launch == 'JobLaunchError':
+                c.raise_(experiment.runtime.errors.JobLaunchError, 'submission refused', IOError('backend down'))
+            if launch == 'other':
+                c.raise_(RuntimeError, 'boom')
+            return new_task
+        this = Obj('engine', log=NULLLOG, process=previous, job=Obj('job', executable='x', arguments='y'), _exitReason=None,
+                   _resubmissionAttempts=c.int('resub'), taskGenerator=Extern('taskGenerator', generate),
+                   emit_now=Extern('Engine.emit_now', lambda c: None))
+        return State(args=['perf'], free={'self': this}, this=this, launch=launch, new_task=new_task, previous=previous)
+
+    def externs(self, c, st):
+        return {'traceback.format_exc': Extern('format_exc', lambda c: 'tb')}
+
+    def ensures(self, c, st, out):
+        if out.kind == 'raise':
+            return [('a-failed-launch-is-reported-not-raised', False)]
+        em = out.value
+        this = st.this
+        if st.launch == 'ok':
+            return [('a-failed-launch-is-reported-not-raised', True),
+                    ('the-new-task-is-the-engines-task', em['process'] is st.new_task and this.process is st.new_task and em['exitReason'] is None)]
+        want = ER['SubmissionFailed'] if st.launch in ('OSError', 'JobLaunchError') else ER['UnknownIssue']
+        cl = [('a-failed-launch-is-reported-not-raised', True),
+              ('a-failed-submission-is-reported-as-such', em['process'] is None and em['exitReason'] == want),
+              ('no-stale-task-is-left-on-the-engine', this.process is None)]
+        # what the engine records for this emission (the REAL _setExitReason on the state LaunchTask left behind)
+        this._setExitReason(em['exitReason'])
+        cl.append(('the-recorded-exit-reason-is-the-launch-failure', this._exitReason == want))
+        return cl
+
+    def cross_compare(self, *a):
+        return []
+
+
 class PostMortemCheck(Target):
     prop = 'C12'
     name = 'Controller.postMortemCheck'
@@ -577,6 +636,6 @@ class CounterFrames(Lemma):
                              "reason": "frame obligation: a function outside the contracts writes a policy counter"}
 
 
-TARGETS = [EngineRestart(), RepeatingEngineRestart(), ComponentStateRestart(), SetExitReason(),
+TARGETS = [EngineRestart(), RepeatingEngineRestart(), ComponentStateRestart(), SetExitReason(), LaunchTask(),
            RestartComponent(), UnstableSystemRestart(), PostMortemCheck()]
 LEMMAS = [HistoryLemma(), CounterFrames()]
